@@ -97,8 +97,9 @@ def run(tier, v):
             fsx.Scenario("rep-structured-corruptlock", STRUCT, check=True, structured=True, lock="garbage"),
             fsx.Scenario("rep-unreadable-nocache", UNREADABLE, check=True, use_cache=False)]
     for sc in reps:
-        base, nx, capped = ex.explore(sc, {"kill", "fail", "sig"}, 2 if tier == "thorough" else 1, oracle, opt=opt)
-        v.subspace("%s: every op x {kill, fail(errno menu), SIGINT, SIGTERM}" % sc.name, nx, exhaustive=not capped,
+        # "logfail": stdout / stderr is a closed pipe or a full device (`--check | grep -q x`, `> /dev/full`): the logger panics
+        base, nx, capped = ex.explore(sc, {"kill", "fail", "sig", "logfail"}, 2 if tier == "thorough" else 1, oracle, opt=opt)
+        v.subspace("%s: every op x {kill, fail(errno menu), SIGINT, SIGTERM, EPIPE on every write to stdout/stderr}" % sc.name, nx, exhaustive=not capped,
                    ops_in_fault_free_run=len(base.trace))
     # --- unusual temp-directory settings (a check run needs no temp directory at all)
     ntf = 0
